@@ -31,7 +31,21 @@
  * a symbolic array index into a malloc'ed object - bisected in the hashheap harness.) */
 static inline void *cmv_malloc(size_t n) { void *p = malloc(n); __CPROVER_assume(p != NULL); return p; }
 static inline void *cmv_calloc(size_t n, size_t m) { void *p = calloc(n, m); __CPROVER_assume(p != NULL); return p; }
-static inline void *cmv_realloc(void *q, size_t n) { void *p = realloc(q, n); __CPROVER_assume(p != NULL); return p; }
+/* realloc: new block, contents preserved up to the smaller size, old block freed (always moves, which
+ * is the case that matters for callers that keep the old pointer).  Word-wise copy: CBMC's byte-wise
+ * memcpy model runs out of memory beyond a few hundred bytes. */
+static inline void *cmv_realloc(void *q, size_t n)
+{
+    void *p = malloc(n); __CPROVER_assume(p != NULL);
+    if (q != NULL) {
+        const size_t old = __CPROVER_OBJECT_SIZE(q);
+        const size_t m = old < n ? old : n;
+        __CPROVER_assert(m % 8u == 0u, "harness realloc model: sizes are multiples of 8");
+        for (size_t i = 0; i < m / 8u; i++) ((uint64_t *)p)[i] = ((const uint64_t *)q)[i];
+        free(q);
+    }
+    return p;
+}
 #define malloc(n) cmv_malloc(n)
 #define calloc(n, m) cmv_calloc(n, m)
 #define realloc(q, n) cmv_realloc(q, n)
